@@ -441,19 +441,27 @@ def get_scu_cases(rng, count, as_c17=False):
                 pc = rng.choice([3, 5, 7])
                 mid = ids(rng)
                 inst = '1.2.3.%d.%d' % (k, rng.randint(0, 999))
+                # one C-GET may deliver instances of several storage classes, on several contexts, some kept in files
+                # (store_in_file) and some in memory
+                cls_k = CT if (pc != 7 or as_c17) else MR
                 m = dm.CStoreRQMessage()
                 m.message_id = mid
-                m.sop_class_uid = CT
+                m.sop_class_uid = cls_k
                 m.affected_sop_instance_uid = inst
                 m.priority = 0
                 ds = sd.small_dataset(k)
                 ds.SOPInstanceUID = inst
-                m.data_set = sd.encode_ds(ds)
+                if cls_k == MR:
+                    import io
+                    lab.ae.store_in_file = set([MR])
+                    m.data_set = io.BytesIO(sd.encode_ds(ds))
+                else:
+                    m.data_set = sd.encode_ds(ds)
                 lab.incoming.append((m, pc))
-                lab.ae.context_def_list[pc] = lab.ctx(pc, CT)
+                lab.ae.context_def_list[pc] = lab.ctx(pc, cls_k)
                 o = rng.choice([sd.Outcome(0), sd.Outcome(0xB000), sd.Outcome(0xA700), sd.Outcome(error=True)])
                 outcomes.append(o)
-                rqt = sd.c_rq(1, pc, mid, CT, inst)
+                rqt = sd.c_rq(1, pc, mid, cls_k, inst)
                 msgs_terms.append('(StoreRq %s %s)' % (rqt, c_outcome(o)))
                 if first_rq is None:
                     first_rq = (rqt, o, pc, mid, inst)
@@ -462,6 +470,9 @@ def get_scu_cases(rng, count, as_c17=False):
         err = None
         try:
             for ctx, ds in sopclass.qr_get_scu(lab.assoc, lab.ctx(1, GET), sd.small_dataset(0), 5):
+                if hasattr(ds, 'read'):                  # an instance kept in a file: the caller is handed the file
+                    from pynetdicom2 import dsutils
+                    ds = dsutils.decode(ds.read(), True, True)
                 yields.append(str(ds.SOPInstanceUID))
         except Exception as e:  # noqa
             err = repr(e)
@@ -508,6 +519,7 @@ def move_case(rng):
     dest = dict(aet='DEST', address='10.0.0.1', port=104)
     known = n > 0 or rng.random() < 0.5
     lab.move_plan = (dest if known else None, n, iter(dsets))
+    lab.release_raises = known and rng.random() < 0.2     # the destination confirms the release too late
     err = None
     try:
         sopclass.qr_move_scp(lab.assoc, lab.ctx(pc, MOVE), msg)
@@ -521,7 +533,7 @@ def move_case(rng):
         clist(['(%s, %d)' % (cbytes(i.encode()), ok) for i, ok in subops]))
     human = dict(n_instances=n, destination_known=known, sub_outcomes=[hex(c) for c in codes], error=err,
                  responses=[(hex(r['status'] or 0), r['rem'], r['comp'], r['fail'], r['warn']) for r in sent],
-                 sub_operations=subops, sub_assoc_log=lab.sub_log)
+                 sub_operations=subops, sub_assoc_log=lab.sub_log, release_raises=lab.release_raises)
     return term, human
 
 
@@ -547,6 +559,7 @@ def main_c19(tier, seed):
                    'destination known / unknown; distinct = distinct plans')
     cov['distribution'] = dict(get_cases=len(gets), move_cases=len(moves),
                                moves_nothing_to_move=sum(1 for _t, h in moves if h['n_instances'] == 0),
+                               moves_release_times_out=sum(1 for _t, h in moves if h['release_raises']),
                                errors=sum(1 for _t, h in gets + moves if h['error']))
     cov['samples'] = [gets[3][1], moves[3][1]]
     for obs, failing, label in ((gets, f1, 'get'), (moves, f2, 'move')):
